@@ -4,6 +4,13 @@ import FpVerif.Model.StateT
 
 Property theorems only.  All functions are arbitrary `GoM` computations (they may log and panic),
 all states and values are universally quantified.
+
+Steps (`st : StT S A`) are arbitrary too.  Three forms of every failure / recovery law (audit finding 14):
+* HYPOTHESIS-FREE equations (`flatMap_eq`, `foldM_append_cons`, `recover_eq`): `op st … s = st s >>= fun x => …` for every `st`;
+* `…_eff`: the step is known to return a given outcome AFTER arbitrary effects `act : GoM X` (`st s = act >>= fun _ => pure …`):
+  the effects are kept, once, first;
+* the old effect-free statements (`st s = pure …`), now corollaries at `act := pure ()`.
+The excluded branch `e = .nil` of every `e ≠ .nil` hypothesis is stated: `flatMap_nil(_eff)`, `recover_nil(_eff)`.
 -/
 namespace FpVerif.Spec.C17
 open FpVerif
@@ -57,11 +64,36 @@ theorem right_id (m : StM.StT S A) (hm : NoNil m) :
   | success v => simp [StM.pure]
   | failure e => cases e <;> simp [Try.failedGet]
 
-/-- The zero-value `Try` is rejected with a panic, not propagated (the excluded branch). -/
+/-- HYPOTHESIS-FREE form of everything below about `FlatMap` (audit finding 14): for EVERY step `st` — it may
+    log, panic, return anything — `FlatMap(st, k)` from `s` runs `st s` (all of its effects, once, first) and then
+    looks at what it returned: on `Success a` the continuation runs from the step's state; on the zero-value
+    `Try` the library panics; on `Failure e` that very error and the step's state come back and `k` is absent. -/
+theorem flatMap_eq (st : StM.StT S A) (k : A → GoM (StM.StT S B)) (s : S) :
+    StM.flatMap st k s = (st s >>= fun x =>
+      match x.1 with
+      | .success a => (do (← k a) x.2)
+      | .failure .nil => throw "ErrNotInit"
+      | .failure e => Pure.pure (.failure e, x.2)) := by
+  simp only [StM.flatMap]
+  congr 1
+  funext ⟨r, ns⟩
+  cases r with
+  | success v => simp
+  | failure e => cases e <;> simp [Try.failedGet]
+
+/-- The zero-value `Try` is rejected with a panic, not propagated (the excluded branch) — also when the step
+    had effects `act` (of any result type `X`: a log, further callbacks, …) before returning it: the effects stay,
+    then the panic. -/
+theorem flatMap_nil_eff {X : Type} (st : StM.StT S A) (k : A → GoM (StM.StT S B)) (s ns : S) (act : GoM X)
+    (h : st s = act >>= fun _ => Pure.pure (.failure .nil, ns)) :
+    StM.flatMap st k s = act >>= fun _ => throw "ErrNotInit" := by
+  simp [StM.flatMap, h]
+
+/-- the effect-free instance of `flatMap_nil_eff` (`act := pure ()`) -/
 theorem flatMap_nil (st : StM.StT S A) (k : A → GoM (StM.StT S B)) (s ns : S)
     (h : st s = Pure.pure (.failure .nil, ns)) :
     StM.flatMap st k s = throw "ErrNotInit" := by
-  simp [StM.flatMap, h]
+  simpa using flatMap_nil_eff st k s ns (Pure.pure ()) (by simpa using h)
 
 theorem assoc (m : StM.StT S A) (k : A → GoM (StM.StT S B)) (h : B → GoM (StM.StT S C)) :
     StM.flatMap (StM.flatMap m k) h = StM.flatMap m (fun a => do let mb ← k a; Pure.pure (StM.flatMap mb h)) := by
@@ -79,17 +111,39 @@ theorem map_def (m : StM.StT S A) (f : A → GoM B) :
 
 -- failure --------------------------------------------------------------------------------------
 
+/-- GENERAL form (audit finding 14): the failing step may have EFFECTS before it fails — `act` is an arbitrary
+    `GoM` computation (a log, calls of other callbacks; if it panics both sides panic alike).  The effects of the
+    step are kept, exactly once; the continuation `k` is absent; error and state are those of the failure.
+    `flatMap_failure` below is the instance `act := pure ()`. -/
+theorem flatMap_failure_eff {X : Type} (st : StM.StT S A) (k : A → GoM (StM.StT S B)) (s ns : S) (e : Err)
+    (he : e ≠ .nil) (act : GoM X) (h : st s = act >>= fun _ => Pure.pure (.failure e, ns)) :
+    StM.flatMap st k s = act >>= fun _ => Pure.pure (.failure e, ns) := by
+  simp [StM.flatMap, h, he]
+
+/-- … and when error and state DEPEND on what the step computed (`x`): still the continuation is absent -/
+theorem flatMap_failure_dep {X : Type} (st : StM.StT S A) (k : A → GoM (StM.StT S B)) (s : S) (act : GoM X)
+    (e : X → Err) (ns : X → S) (he : ∀ x, e x ≠ .nil)
+    (h : st s = act >>= fun x => Pure.pure (.failure (e x), ns x)) :
+    StM.flatMap st k s = act >>= fun x => Pure.pure (.failure (e x), ns x) := by
+  simp [StM.flatMap, h, he]
+
 /-- When a step fails, the continuation is not run (none of its effects appear) and the state
-    reported is the state at the point of failure. -/
+    reported is the state at the point of failure: the effect-free instance of `flatMap_failure_eff`. -/
 theorem flatMap_failure (st : StM.StT S A) (k : A → GoM (StM.StT S B)) (s ns : S) (e : Err) (he : e ≠ .nil)
     (h : st s = Pure.pure (.failure e, ns)) :
     StM.flatMap st k s = Pure.pure (.failure e, ns) := by
-  simp [StM.flatMap, h, he]
+  simpa using flatMap_failure_eff st k s ns e he (Pure.pure ()) (by simpa using h)
+
+/-- GENERAL form: the succeeding step may have effects; they come first, then the continuation from `ns`. -/
+theorem flatMap_success_eff {X : Type} (st : StM.StT S A) (k : A → GoM (StM.StT S B)) (s ns : S) (a : A)
+    (act : GoM X) (h : st s = act >>= fun _ => Pure.pure (.success a, ns)) :
+    StM.flatMap st k s = act >>= fun _ => (do (← k a) ns) := by
+  simp [StM.flatMap, h]
 
 theorem flatMap_success (st : StM.StT S A) (k : A → GoM (StM.StT S B)) (s ns : S) (a : A)
     (h : st s = Pure.pure (.success a, ns)) :
     StM.flatMap st k s = (do (← k a) ns) := by
-  simp [StM.flatMap, h]
+  simpa using flatMap_success_eff st k s ns a (Pure.pure ()) (by simpa using h)
 
 /-- `FoldM` is the left-to-right chain: each further element's step runs after, and from the
     state left by, the steps of the elements before it. -/
@@ -101,29 +155,80 @@ theorem foldM_snoc (xs : List A) (x : A) (z : B) (f : B → A → GoM (StM.StT S
 
 /-- A failing step ends a `FoldM`: the steps of all later elements are absent (none of their
     effects appear) and the state reported is that of the failure. -/
-theorem foldM_failure (xs ys : List A) (z : B) (f : B → A → GoM (StM.StT S B))
-    (s ns : S) (e : Err) (he : e ≠ .nil)
-    (h : StM.foldM xs z f s = Pure.pure (.failure e, ns)) :
-    StM.foldM (xs ++ ys) z f s = Pure.pure (.failure e, ns) := by
-  have gen : ∀ (ys : List A) (acc : StM.StT S B), acc s = Pure.pure (.failure e, ns) →
-      (ys.foldl (fun sum na => StM.flatMap sum (fun b => f b na)) acc) s = Pure.pure (.failure e, ns) := by
+theorem foldM_failure_eff {X : Type} (xs ys : List A) (z : B) (f : B → A → GoM (StM.StT S B))
+    (s ns : S) (e : Err) (he : e ≠ .nil) (act : GoM X)
+    (h : StM.foldM xs z f s = act >>= fun _ => Pure.pure (.failure e, ns)) :
+    StM.foldM (xs ++ ys) z f s = act >>= fun _ => Pure.pure (.failure e, ns) := by
+  have gen : ∀ (ys : List A) (acc : StM.StT S B), acc s = (act >>= fun _ => Pure.pure (.failure e, ns)) →
+      (ys.foldl (fun sum na => StM.flatMap sum (fun b => f b na)) acc) s
+        = act >>= fun _ => Pure.pure (.failure e, ns) := by
     intro ys
     induction ys with
     | nil => intro acc h; simpa using h
     | cons y ys ih =>
       intro acc h
       simp only [List.foldl_cons]
-      exact ih _ (flatMap_failure acc _ s ns e he h)
+      exact ih _ (flatMap_failure_eff acc _ s ns e he act h)
   simp only [StM.foldM, List.foldl_append]
   exact gen ys _ h
+
+/-- the effect-free instance of `foldM_failure_eff` (whose doc is the one above: `act` = everything the steps of
+    `xs` did — logs of the succeeding steps AND of the failing one — before the failure came back) -/
+theorem foldM_failure (xs ys : List A) (z : B) (f : B → A → GoM (StM.StT S B))
+    (s ns : S) (e : Err) (he : e ≠ .nil)
+    (h : StM.foldM xs z f s = Pure.pure (.failure e, ns)) :
+    StM.foldM (xs ++ ys) z f s = Pure.pure (.failure e, ns) := by
+  simpa using foldM_failure_eff xs ys z f s ns e he (Pure.pure ()) (by simpa using h)
+
+/-- `FlatMap` looks at its continuation only through "run it, then run the state function it returned": two
+    continuations that agree on that give the same `FlatMap` -/
+theorem flatMap_congr (acc : StM.StT S A) (k1 k2 : A → GoM (StM.StT S B))
+    (h : ∀ a ns, (do (← k1 a) ns) = (do (← k2 a) ns)) : StM.flatMap acc k1 = StM.flatMap acc k2 := by
+  funext s
+  simp only [StM.flatMap]
+  congr 1
+  funext ⟨r, ns⟩
+  cases r with
+  | success a => exact h a ns
+  | failure e => rfl
+
+/-- HYPOTHESIS-FREE: `FoldM` over `xs ++ y :: ys` IS `FoldM` over `xs` followed — through `FlatMap`, hence with
+    its short circuit `flatMap_eq` — by `FoldM` over `y :: ys` from the accumulator reached; for every step function
+    (logging, panicking, failing, returning the zero-value Try).  (For an empty right part the equation needs
+    `right_id`, i.e. `NoNil`: `FoldM xs` hands a zero-value Try back as it is, `FlatMap` panics on it.) -/
+theorem foldM_append_cons (xs : List A) (y : A) (ys : List A) (z : B) (f : B → A → GoM (StM.StT S B)) :
+    StM.foldM (xs ++ y :: ys) z f
+      = StM.flatMap (StM.foldM xs z f) (fun b => Pure.pure (StM.foldM (y :: ys) b f)) := by
+  have gen : ∀ (ys : List A) (y : A) (acc : StM.StT S B),
+      (y :: ys).foldl (fun sum na => StM.flatMap sum (fun b => f b na)) acc
+        = StM.flatMap acc (fun b => Pure.pure
+            ((y :: ys).foldl (fun sum na => StM.flatMap sum (fun b => f b na)) (StM.pure b))) := by
+    intro ys
+    induction ys with
+    | nil =>
+      intro y acc
+      apply flatMap_congr
+      intro a ns
+      simp [StM.flatMap, StM.pure]
+    | cons y' ys ih =>
+      intro y acc
+      rw [List.foldl_cons, ih y' (StM.flatMap acc (fun b => f b y)), assoc]
+      apply flatMap_congr
+      intro a ns
+      rw [List.foldl_cons, ih y' (StM.flatMap (StM.pure a) (fun b => f b y))]
+      simp [StM.flatMap, StM.pure]
+  simp only [StM.foldM, List.foldl_append]
+  exact gen ys y _
 
 /-- `Concat` threads left to right and stops at the first failure. -/
 theorem concat_cons (st v : StM.StT S A) (tail : List (StM.StT S A)) :
     StM.concat st (v :: tail) = StM.concat (StM.flatMapConst st v) tail := rfl
 
-theorem concat_failure (st : StM.StT S A) (tail : List (StM.StT S A)) (s ns : S) (e : Err) (he : e ≠ .nil)
-    (h : st s = Pure.pure (.failure e, ns)) :
-    StM.concat st tail s = Pure.pure (.failure e, ns) := by
+/-- GENERAL form (finding 14): the failing head may log / run callbacks (`act`) before it fails; those effects
+    are kept, no element of `tail` runs. -/
+theorem concat_failure_eff {X : Type} (st : StM.StT S A) (tail : List (StM.StT S A)) (s ns : S) (e : Err)
+    (he : e ≠ .nil) (act : GoM X) (h : st s = act >>= fun _ => Pure.pure (.failure e, ns)) :
+    StM.concat st tail s = act >>= fun _ => Pure.pure (.failure e, ns) := by
   induction tail generalizing st with
   | nil => simpa [StM.concat] using h
   | cons v vs ih =>
@@ -131,10 +236,123 @@ theorem concat_failure (st : StM.StT S A) (tail : List (StM.StT S A)) (s ns : S)
     apply ih
     simp [StM.flatMapConst, StM.flatMap, h, he]
 
+theorem concat_failure (st : StM.StT S A) (tail : List (StM.StT S A)) (s ns : S) (e : Err) (he : e ≠ .nil)
+    (h : st s = Pure.pure (.failure e, ns)) :
+    StM.concat st tail s = Pure.pure (.failure e, ns) := by
+  simpa using concat_failure_eff st tail s ns e he (Pure.pure ()) (by simpa using h)
+
 -- recovery -------------------------------------------------------------------------------------
+
+/-- What every Recover* variant does with the outcome `x = (result, state)` of the step it wraps: a Success
+    passes with the step's state and no handler runs; on the zero-value `Try` the library panics (in
+    `Failed().Get()`, state.go); a Failure goes to the handler `h` TOGETHER WITH THE STEP'S STATE. -/
+def handle (x : Try A × S) (h : Err → S → GoM (Try A × S)) : GoM (Try A × S) :=
+  match x.1 with
+  | .success v => Pure.pure (.success v, x.2)
+  | .failure .nil => throw "ErrNotInit"
+  | .failure e => h e x.2
+
+/-- HYPOTHESIS-FREE recovery law (audit finding 14), all eight variants, EVERY step `st` (it may log, panic, fail,
+    return the zero value), every handler: the step runs first, once, with all its effects; then `handle` decides.
+    Every handler receives the error with the post-step state `ns`, and `ns` is the state returned (unless the
+    handler is itself a `StateT`, which then runs from `ns`). -/
+theorem recover_eq (st : StM.StT S A) (s : S)
+    (f : Err → GoM A) (ft : Err → GoM (Try A)) (f2 : S → Err → GoM A) (f2t : S → Err → GoM (Try A))
+    (fw : Err → GoM (StM.StT S A)) (p : Err → GoM Bool) :
+    StM.recover st f s = (st s >>= fun x => handle x fun e ns => do let a ← f e; Pure.pure (.success a, ns)) ∧
+    StM.recoverT st ft s = (st s >>= fun x => handle x fun e ns => do let t ← ft e; Pure.pure (t, ns)) ∧
+    StM.recoverWithState st f2 s
+      = (st s >>= fun x => handle x fun e ns => do let a ← f2 ns e; Pure.pure (.success a, ns)) ∧
+    StM.recoverWithStateT st f2t s = (st s >>= fun x => handle x fun e ns => do let t ← f2t ns e; Pure.pure (t, ns)) ∧
+    StM.recoverWith st fw s = (st s >>= fun x => handle x fun e ns => do (← fw e) ns) ∧
+    StM.recoverCase st p f s = (st s >>= fun x => handle x fun e ns => do
+      if ← p e then (do let a ← f e; Pure.pure (.success a, ns)) else Pure.pure (.failure e, ns)) ∧
+    StM.recoverCaseT st p ft s = (st s >>= fun x => handle x fun e ns => do
+      if ← p e then (do let t ← ft e; Pure.pure (t, ns)) else Pure.pure (.failure e, ns)) ∧
+    StM.recoverCaseWith st p fw s = (st s >>= fun x => handle x fun e ns => do
+      if ← p e then (do (← fw e) ns) else Pure.pure (.failure e, ns)) := by
+  refine ⟨?_, ?_, ?_, ?_, ?_, ?_, ?_, ?_⟩ <;>
+    simp only [StM.recover, StM.recoverT, StM.recoverWithState, StM.recoverWithStateT, StM.recoverWith,
+      StM.recoverCase, StM.recoverCaseT, StM.recoverCaseWith] <;>
+    congr 1 <;> funext ⟨r, ns⟩ <;> cases r with
+    | success v => simp [handle]
+    | failure e => cases e <;> simp [handle, Try.failedGet]
 
 section StM.recover
 variable (st : StM.StT S A) (s ns : S) (v : A) (e : Err)
+
+/-- GENERAL form of `recover_success` (finding 14): the succeeding step may have effects `act` (any `GoM`
+    computation: a log, other callbacks) before it returns; they are kept, no handler runs. -/
+theorem recover_success_eff {X : Type} (act : GoM X) (hs : st s = act >>= fun _ => Pure.pure (.success v, ns))
+    (f : Err → GoM A) (ft : Err → GoM (Try A)) (f2 : S → Err → GoM A) (f2t : S → Err → GoM (Try A))
+    (fw : Err → GoM (StM.StT S A)) (p : Err → GoM Bool) :
+    StM.recover st f s = (act >>= fun _ => Pure.pure (.success v, ns)) ∧
+    StM.recoverT st ft s = (act >>= fun _ => Pure.pure (.success v, ns)) ∧
+    StM.recoverWithState st f2 s = (act >>= fun _ => Pure.pure (.success v, ns)) ∧
+    StM.recoverWithStateT st f2t s = (act >>= fun _ => Pure.pure (.success v, ns)) ∧
+    StM.recoverWith st fw s = (act >>= fun _ => Pure.pure (.success v, ns)) ∧
+    StM.recoverCase st p f s = (act >>= fun _ => Pure.pure (.success v, ns)) ∧
+    StM.recoverCaseT st p ft s = (act >>= fun _ => Pure.pure (.success v, ns)) ∧
+    StM.recoverCaseWith st p fw s = (act >>= fun _ => Pure.pure (.success v, ns)) := by
+  simp [StM.recover, StM.recoverT, StM.recoverWithState, StM.recoverWithStateT, StM.recoverWith, StM.recoverCase,
+    StM.recoverCaseT, StM.recoverCaseWith, hs]
+
+/-- GENERAL form of `recover_failure`: the failing step may have effects `act` before it fails; they come first,
+    then the handler — with the failure's own error and the post-failure state. -/
+theorem recover_failure_eff {X : Type} (act : GoM X) (he : e ≠ .nil)
+    (hs : st s = act >>= fun _ => Pure.pure (.failure e, ns))
+    (f : Err → GoM A) (ft : Err → GoM (Try A)) (f2 : S → Err → GoM A) (f2t : S → Err → GoM (Try A))
+    (fw : Err → GoM (StM.StT S A)) :
+    StM.recover st f s = (act >>= fun _ => do let a ← f e; Pure.pure (.success a, ns)) ∧
+    StM.recoverT st ft s = (act >>= fun _ => do let t ← ft e; Pure.pure (t, ns)) ∧
+    StM.recoverWithState st f2 s = (act >>= fun _ => do let a ← f2 ns e; Pure.pure (.success a, ns)) ∧
+    StM.recoverWithStateT st f2t s = (act >>= fun _ => do let t ← f2t ns e; Pure.pure (t, ns)) ∧
+    StM.recoverWith st fw s = (act >>= fun _ => do (← fw e) ns) := by
+  simp [StM.recover, StM.recoverT, StM.recoverWithState, StM.recoverWithStateT, StM.recoverWith, hs, he]
+
+theorem recoverCase_failure_eff {X : Type} (act : GoM X) (he : e ≠ .nil)
+    (hs : st s = act >>= fun _ => Pure.pure (.failure e, ns))
+    (p : Err → GoM Bool) (f : Err → GoM A) (ft : Err → GoM (Try A)) (fw : Err → GoM (StM.StT S A)) :
+    StM.recoverCase st p f s = (act >>= fun _ => do
+      if ← p e then (do let a ← f e; Pure.pure (.success a, ns)) else Pure.pure (.failure e, ns)) ∧
+    StM.recoverCaseT st p ft s = (act >>= fun _ => do
+      if ← p e then (do let t ← ft e; Pure.pure (t, ns)) else Pure.pure (.failure e, ns)) ∧
+    StM.recoverCaseWith st p fw s = (act >>= fun _ => do
+      if ← p e then (do (← fw e) ns) else Pure.pure (.failure e, ns)) := by
+  simp [StM.recoverCase, StM.recoverCaseT, StM.recoverCaseWith, hs, he]
+
+/-- THE EXCLUDED BRANCH of `recover_failure` / `recoverCase_failure` (`e = .nil`; audit finding 20; the theorem
+    DESIGN.md cites): when the wrapped step returns the zero-value `Try` (`fp.Try[A]{}` / `try.Failure(nil)`), every
+    Recover* / RecoverCase* variant PANICS with "Try not initialized correctly" — `at.Failed().Get()` in state.go:
+    `Failed()` is `Failure(ErrNotInit)` (try.go:85-87) and `Get` on a Failure panics (try.go:43).  No handler and no
+    `isDefinedAt` runs; the step's own effects `act` are kept. -/
+theorem recover_nil_eff {X : Type} (act : GoM X) (hs : st s = act >>= fun _ => Pure.pure (.failure .nil, ns))
+    (f : Err → GoM A) (ft : Err → GoM (Try A)) (f2 : S → Err → GoM A) (f2t : S → Err → GoM (Try A))
+    (fw : Err → GoM (StM.StT S A)) (p : Err → GoM Bool) :
+    StM.recover st f s = (act >>= fun _ => throw "ErrNotInit") ∧
+    StM.recoverT st ft s = (act >>= fun _ => throw "ErrNotInit") ∧
+    StM.recoverWithState st f2 s = (act >>= fun _ => throw "ErrNotInit") ∧
+    StM.recoverWithStateT st f2t s = (act >>= fun _ => throw "ErrNotInit") ∧
+    StM.recoverWith st fw s = (act >>= fun _ => throw "ErrNotInit") ∧
+    StM.recoverCase st p f s = (act >>= fun _ => throw "ErrNotInit") ∧
+    StM.recoverCaseT st p ft s = (act >>= fun _ => throw "ErrNotInit") ∧
+    StM.recoverCaseWith st p fw s = (act >>= fun _ => throw "ErrNotInit") := by
+  simp [StM.recover, StM.recoverT, StM.recoverWithState, StM.recoverWithStateT, StM.recoverWith, StM.recoverCase,
+    StM.recoverCaseT, StM.recoverCaseWith, hs]
+
+/-- the effect-free instance of `recover_nil_eff` -/
+theorem recover_nil (hs : st s = Pure.pure (.failure .nil, ns))
+    (f : Err → GoM A) (ft : Err → GoM (Try A)) (f2 : S → Err → GoM A) (f2t : S → Err → GoM (Try A))
+    (fw : Err → GoM (StM.StT S A)) (p : Err → GoM Bool) :
+    StM.recover st f s = throw "ErrNotInit" ∧
+    StM.recoverT st ft s = throw "ErrNotInit" ∧
+    StM.recoverWithState st f2 s = throw "ErrNotInit" ∧
+    StM.recoverWithStateT st f2t s = throw "ErrNotInit" ∧
+    StM.recoverWith st fw s = throw "ErrNotInit" ∧
+    StM.recoverCase st p f s = throw "ErrNotInit" ∧
+    StM.recoverCaseT st p ft s = throw "ErrNotInit" ∧
+    StM.recoverCaseWith st p fw s = throw "ErrNotInit" := by
+  simpa using recover_nil_eff st s ns (Pure.pure ()) (by simpa using hs) f ft f2 f2t fw p
 
 /-- Every Recover* variant leaves successes untouched; the handler is absent. -/
 theorem recover_success (hs : st s = Pure.pure (.success v, ns))
@@ -148,8 +366,7 @@ theorem recover_success (hs : st s = Pure.pure (.success v, ns))
     StM.recoverCase st p f s = Pure.pure (.success v, ns) ∧
     StM.recoverCaseT st p ft s = Pure.pure (.success v, ns) ∧
     StM.recoverCaseWith st p fw s = Pure.pure (.success v, ns) := by
-  simp [StM.recover, StM.recoverT, StM.recoverWithState, StM.recoverWithStateT, StM.recoverWith, StM.recoverCase,
-    StM.recoverCaseT, StM.recoverCaseWith, hs]
+  simpa using recover_success_eff st s ns v (Pure.pure ()) (by simpa using hs) f ft f2 f2t fw p
 
 /-- On failure the handler gets the error together with the post-failure state `ns`,
     and `ns` is the state returned — the same for all variants that take a state. -/
@@ -161,14 +378,14 @@ theorem recover_failure (he : e ≠ .nil) (hs : st s = Pure.pure (.failure e, ns
     StM.recoverWithState st f2 s = (do let a ← f2 ns e; Pure.pure (.success a, ns)) ∧
     StM.recoverWithStateT st f2t s = (do let t ← f2t ns e; Pure.pure (t, ns)) ∧
     StM.recoverWith st fw s = (do (← fw e) ns) := by
-  simp [StM.recover, StM.recoverT, StM.recoverWithState, StM.recoverWithStateT, StM.recoverWith, hs, he]
+  simpa using recover_failure_eff st s ns e (Pure.pure ()) he (by simpa using hs) f ft f2 f2t fw
 
 theorem recoverCase_failure (he : e ≠ .nil) (hs : st s = Pure.pure (.failure e, ns))
     (p : Err → GoM Bool) (f : Err → GoM A) (ft : Err → GoM (Try A)) (fw : Err → GoM (StM.StT S A)) :
     StM.recoverCase st p f s = (do if ← p e then (do let a ← f e; Pure.pure (.success a, ns)) else Pure.pure (.failure e, ns)) ∧
     StM.recoverCaseT st p ft s = (do if ← p e then (do let t ← ft e; Pure.pure (t, ns)) else Pure.pure (.failure e, ns)) ∧
     StM.recoverCaseWith st p fw s = (do if ← p e then (do (← fw e) ns) else Pure.pure (.failure e, ns)) := by
-  simp [StM.recoverCase, StM.recoverCaseT, StM.recoverCaseWith, hs, he]
+  simpa using recoverCase_failure_eff st s ns e (Pure.pure ()) he (by simpa using hs) p f ft fw
 
 /-- Consistency across variants: the state-less variants are the state-taking ones with a handler
     that ignores the state; the non-`T` variants wrap the handler's result in `Success`. -/
@@ -183,6 +400,29 @@ end StM.recover
 example : (StM.fromTry (S := Int) (A := Int) (.failure (.code 3))) 5 = Pure.pure (.failure (.code 3), 5) := rfl
 example : (StM.flatMap (StM.put (7 : Int)) (fun _ => Pure.pure (StM.fromTry (A := Int) (.failure (.code 1))))) 5
     = Pure.pure (.failure (.code 1), 7) := by simp [StM.flatMap, StM.put, StM.fromTry, Try.failedGet]
+
+-- non-vacuity of the GENERAL (`_eff`) forms: a step that LOGS and then fails / succeeds / returns the zero value
+/-- the step `logFail`: emit "k", move the state, fail -/
+def logFail : StM.StT Int Int := fun s => do emit "k"; Pure.pure (.failure (.code 3), s + 1)
+
+example : logFail 5 = (emit "k" >>= fun _ => Pure.pure (.failure (.code 3), 6)) := rfl
+/-- … which does NOT meet the effect-free hypothesis `st s = pure (…)` of the old statements (its log differs) -/
+example : logFail 5 ≠ Pure.pure (.failure (.code 3), 6) := by
+  intro h
+  have := congrArg (fun m => (GoM.exec m).2) h
+  revert this
+  decide
+/-- the `_eff` theorems apply to it: the continuation (which would log "never") is absent, "k" stays -/
+example (k : Int → GoM (StM.StT Int Int)) :
+    StM.flatMap logFail k 5 = (emit "k" >>= fun _ => Pure.pure (.failure (.code 3), 6)) :=
+  flatMap_failure_eff logFail k 5 6 (.code 3) (by decide) (emit "k") rfl
+example (f : Err → GoM Int) :
+    StM.recover logFail f 5 = (emit "k" >>= fun _ => do let a ← f (.code 3); Pure.pure (.success a, 6)) :=
+  (recover_failure_eff logFail 5 6 (.code 3) (emit "k") (by decide) rfl f (fun _ => Pure.pure (.success 0))
+    (fun _ => f) (fun _ _ => Pure.pure (.success 0)) (fun _ => Pure.pure logFail)).1
+/-- the zero-value step with a log: hypothesis of `recover_nil_eff` -/
+example : (fun (s : Int) => (do emit "k"; Pure.pure ((.failure .nil : Try Int), s) : GoM (Try Int × Int))) 5
+    = (emit "k" >>= fun _ => Pure.pure (.failure .nil, 5)) := rfl
 
 end FpVerif.Spec.C17
 
